@@ -12,6 +12,7 @@ import progrun
 sys.path.insert(0, os.path.join(vlib.VERIF, "gen"))
 import progen  # noqa: E402
 import fixedprogs  # noqa: E402
+import corpus  # noqa: E402
 
 META = {
     "title": "Optimisation settings never change program behaviour",
@@ -130,6 +131,14 @@ def run(chk, tier):
                 ran[s] = ran.get(s, 0) + 1
             if not ok:
                 drift.append({"opts": c["opts"], "predicted": c["schedule"], "observed": seen})
+    # the pinned corpus through the Obs monitor: every level must give the observation of -Q0 (interpreter route)
+    allnames = corpus.names()
+    rnd = random.Random(chk.seed + 1)
+    always = [n for n in allnames if n in ("defgroup0", "bug1096", "bug1180") or n.startswith(("opt", "inline", "fold", "cse", "loop"))]
+    sample = allnames if tier == "thorough" else sorted(set(always + rnd.sample(allnames, 30)))
+    clv = [1, 2, 3] if tier == "quick" else list(range(1, 10))
+    ccfgs = [("interp-Q0", "interp", ("-Q0",))] + [("interp-Q%d" % q, "interp", ("-Q%d" % q,)) for q in clv]
+    chk.extra["corpus"] = corpus.observe(chk, b, sample, ccfgs, os.path.join(wd, "corpus"), "C02", "interp-Q0")
     chk.extra["configurations_in_model"] = total
     chk.extra["configurations_replayed"] = len(chosen)
     chk.extra["schedule_drift"] = drift[:10]
